@@ -31,7 +31,9 @@ P = "param.parameterized."
 
 
 def run_case(ctx, f, kw_plain, kw_lst, mode_linked, mode_mlinked, unknown):
-    d = {k: Obj("default_of_" + k) for k in ("plain", "lst", "const", "cboth", "linked", "mlinked")}
+    d = {k: Obj("default_of_" + k) for k in ("plain", "lst", "const", "cboth", "linked", "mlinked", "tup")}
+    d["tup"].attrs["__pytype__"] = "tuple"        # a tuple holding mutable parts: immutable itself, not its contents
+    d["lst"].attrs["__pytype__"] = d["mlinked"].attrs["__pytype__"] = d["cboth"].attrs["__pytype__"] = "list"
     mk = lambda n, **a: Obj("P_" + n, name=n, default=d[n], instantiate=a.get("instantiate", False), constant=a.get("constant", False),
                             allow_refs=a.get("allow_refs", False), owner=Obj("Cls"))
     params = {
@@ -39,6 +41,9 @@ def run_case(ctx, f, kw_plain, kw_lst, mode_linked, mode_mlinked, unknown):
         "plain": mk("plain"), "lst": mk("lst", instantiate=True), "const": mk("const", constant=True),
         "cboth": mk("cboth", constant=True, instantiate=True), "linked": mk("linked", allow_refs=True),
         "mlinked": mk("mlinked", allow_refs=True, instantiate=True),
+        "tup": mk("tup", instantiate=True),
+        # constant AND instantiate=True with a None default (what a constant List / Dict parameter left at None is)
+        "cbnone": Obj("P_cbnone", name="cbnone", default=None, instantiate=True, constant=True, allow_refs=False, owner=Obj("Cls")),
         # a constant whose default is None: "nothing yet" is a value too, and must be pinned like any other
         "cnone": Obj("P_cnone", name="cnone", default=None, instantiate=False, constant=True, allow_refs=False, owner=Obj("Cls")),
     }
@@ -47,6 +52,8 @@ def run_case(ctx, f, kw_plain, kw_lst, mode_linked, mode_mlinked, unknown):
     copies = {}
 
     def deepcopy(o, *a):
+        if not isinstance(o, Obj):
+            return o                       # None, numbers, strings: a deep copy is the object itself
         c = Obj("copy_of_" + getattr(o, "name", repr(o)))
         copies[id(c)] = o
         return c
@@ -95,14 +102,22 @@ def run_case(ctx, f, kw_plain, kw_lst, mode_linked, mode_mlinked, unknown):
             if id(args[1]) in refinfo:
                 return refinfo[id(args[1])]
             return (None, None, args[1], False)
-        if fn == "isinstance":
+        if fn == "isinstance" and len(args) == 2:
+            spec = args[1] if isinstance(args[1], (tuple, list)) else (args[1],)
+            pt = args[0].attrs.get("__pytype__") if isinstance(args[0], Obj) else ("NoneType" if args[0] is None else None)
+            if pt is not None and any(t == "<type %s>" % pt for t in spec):
+                return True
+            if args[0] is None and any(t in ("<type NoneType>",) for t in spec):
+                return True
             return False
+        if fn == "type" and len(args) == 1 and args[0] is None:
+            return "<type NoneType>"
         if fn in ("warnings.warn",):
             return None
         return NotImplemented
     g = {"copy": Obj("copy_module", deepcopy=PyFunc("copy.deepcopy", deepcopy)), "Undefined": UNDEF, "Skip": SKIP,
          "shared_parameters": Obj("shared_parameters", _share=False, _shared_cache={}), "object_count": 0}
-    it = Interp(ctx.hier, dyn=P + "Parameters", inline=lambda m: True, call_hook=hook, globals=g, strict_self_calls=True)
+    it = Interp(ctx.hier, dyn=P + "Parameters", inline=lambda m: True, call_hook=hook, globals=g, strict_self_calls=True, inline_module_functions=True)
     outs = it.run_all(f, {"self_": ns, "params": dict(given)})
     if len(outs) != 1 or outs[0].imprecise:
         raise AnalysisError("constructor model: Parameters._setup_params is not interpretable precisely (%s)" % (outs[0].notes[:2] if outs else "no outcome"))
@@ -133,7 +148,7 @@ def model(ctx):
             problems["C01"].append("%s: the constructor raises %s" % (desc, getattr(o, "what", "?")))
             continue
         # ---- the store before the keywords: copies and pinned constants
-        for k in ("lst", "cboth", "mlinked"):
+        for k in ("lst", "cboth", "mlinked", "tup"):
             v = snap.get(k)
             if not (isinstance(v, Obj) and copies.get(id(v)) is d[k]):
                 problems["C12"].append("%s: before the keywords are applied the instance does not hold its own copy of the mutable default of `%s` (it holds %r): "
@@ -143,6 +158,9 @@ def model(ctx):
         if "cnone" not in snap or snap["cnone"] is not None:
             problems["C14"].append("%s: the constant parameter `cnone` (default None) is not pinned on the instance (%s): the instance follows a later class-level set" % (
                 desc, "store holds %r" % (snap["cnone"],) if "cnone" in snap else "nothing stored"))
+        if "cbnone" not in snap or snap["cbnone"] is not None:
+            problems["C14"].append("%s: the constant parameter `cbnone` (instantiate=True, default None) is not pinned on the instance (%s): the instance follows a later class-level set" % (
+                desc, "store holds %r" % (snap["cbnone"],) if "cbnone" in snap else "nothing stored"))
         for k in ("plain", "linked"):
             if k in snap:
                 problems["C12"].append("%s: `%s` is written into the instance store although it was not given: the instance stops following the class default" % (desc, k))
